@@ -2,6 +2,7 @@ package main
 
 import (
 	"fmt"
+	"math/big"
 	"go/token"
 	"go/types"
 	"strings"
@@ -492,12 +493,24 @@ func (x *Engine) binop(fr *Frame, st *State, i *ssa.BinOp) Val {
 	if isInteger(t) {
 		switch i.Op {
 		case token.ADD, token.SUB, token.MUL:
+			if i.Op == token.MUL {
+				if _, la := litInt(a.T); !la {
+					if _, lb := litInt(b.T); !lb {
+						x.mulHints(st, a.T, b.T)
+					}
+				}
+			}
 			return Val{T: x.name("a", "Int", wrapTerm(rt, fmt.Sprintf("(%s %s %s)", i.Op, a.T, b.T))), Typ: rt}
 		case token.QUO, token.REM:
 			x.divCheck(fr, st, b.T, "0", pos, false)
 			op := "tdiv"
 			if i.Op == token.REM {
 				op = "tmod"
+			}
+			if _, lb := litInt(b.T); !lb && i.Op == token.QUO {
+				// valid facts about a quotient by a symbolic positive divisor
+				q := fmt.Sprintf("(%s %s %s)", map[bool]string{true: "div", false: "tdiv"}[isUnsigned(t)], a.T, b.T)
+				x.assume(st, fmt.Sprintf("(=> (and (<= 0 %s) (< 0 %s)) (and (<= 0 %s) (<= %s %s)))", a.T, b.T, q, q, a.T))
 			}
 			if isUnsigned(t) {
 				op = map[string]string{"tdiv": "div", "tmod": "mod"}[op]
@@ -752,4 +765,19 @@ func (x *Engine) iterKey(fr *Frame, r *ssa.Range) string {
 type boxed struct {
 	typ types.Type
 	ref string
+}
+
+// mulHints: valid facts about a product of two symbolic integers (sign and power-of-two magnitude bounds). They are
+// consequences of integer arithmetic, stated explicitly because solvers are weak on non-linear bounds.
+func (x *Engine) mulHints(st *State, a, b string) {
+	p := fmt.Sprintf("(* %s %s)", a, b)
+	x.assume(st, fmt.Sprintf("(=> (and (<= 0 %s) (<= 0 %s)) (<= 0 %s))", a, b, p))
+	for _, ij := range [][2]uint{{20, 42}, {42, 20}, {20, 41}, {41, 20}, {20, 20}, {31, 32}, {32, 31}, {40, 20}, {20, 40}, {32, 20}, {20, 32}} {
+		x.assume(st, fmt.Sprintf("(=> (and (<= 0 %s) (< %s %s) (<= 0 %s) (< %s %s)) (< %s %s))", a, a, pow2(ij[0]), b, b, pow2(ij[1]), p, pow2(ij[0]+ij[1])))
+	}
+}
+
+func pow2(k uint) string {
+	n := new(big.Int).Lsh(big.NewInt(1), k)
+	return n.String()
 }
